@@ -242,7 +242,7 @@ def gen_case(rng, quick):
     pre = []
     for _ in range(rng.randint(0, 12 if quick else 16)):
         d = rng.choice(DIRS)
-        pre.append(dc.gen_warm(rng, 0, d, cc) if rng.random() < 0.25 else dc.gen_reg(rng, 0, d, preds, tagger))
+        pre.append(dc.gen_warm(rng, 0, d, cc) if rng.random() < 0.25 else dc.gen_reg(rng, 0, d, preds, tagger, prev=pre))
     copies = [gen_copy(rng, 0, cc)]
     cfgs = [cc, ConvCfg.from_json(copies[0]["cfg"])]
     if rng.random() < 0.3:
@@ -253,7 +253,7 @@ def gen_case(rng, quick):
     post = []
     for _ in range(rng.randint(1, 6)):
         d = rng.choice(DIRS)
-        post.append(dc.gen_warm(rng, target, d, cfgs[target]) if rng.random() < 0.2 else dc.gen_reg(rng, target, d, preds, tagger))
+        post.append(dc.gen_warm(rng, target, d, cfgs[target]) if rng.random() < 0.2 else dc.gen_reg(rng, target, d, preds, tagger, prev=post))
     return {"cfg": cc.to_json(), "preds": dc.preds_to_json(preds), "pre": pre, "copies": copies, "target": target, "post": post}
 
 
